@@ -65,12 +65,12 @@ def PCase.addrs (c : PCase) : List String := (List.range c.worlds.length).map sv
 
 def PCase.world (c : PCase) : Proxy.World :=
   { consts := consts,
+    resolverAddr := resolverAddrStr,
     resolve := fun k i => resolveAt c.table k i,
     svcAt := fun a =>
       match c.addrs.findIdx? (· == a) with
       | some k => some (c.svcOf k)
-      | none => if a == resolverAddrStr then some (c.svcOf c.worlds.length) else none,
-    hupWins := abortsAtOnce }
+      | none => if a == resolverAddrStr then some (c.svcOf c.worlds.length) else none }
 
 /-- the target of the direct modes -/
 def PCase.fixedTarget (c : PCase) : Nat :=
@@ -136,10 +136,7 @@ def proxyObs (c : PCase) : Sx :=
     .list [.atom (toString t), .list (.atom "out" :: o.groups.flatten.map ofReply), bytesAtom raw, .atom ending])
   let directLog := directRuns.map fun (t, _, _, _, calls) => (t, calls)
   let upDirect : Bytes := (directRuns.map fun (_, _, _, seen, _) => seen).flatten
-  if c.mode == "connect" then
-    .list [.atom "obs", .list [.atom "bridged", .atom "panicked"], .list [.atom "exit", .atom "101"], directSx,
-           .atom "-", .list [.atom "upseen", .atom "-", .atom "-"]]
-  else if c.directMode then
+  if c.directMode then
     -- byte pump in front of service `fixedTarget`
     let t := c.fixedTarget
     let o := serve consts (c.svcOf t) fs
@@ -151,7 +148,11 @@ def proxyObs (c : PCase) : Sx :=
       | .eof => "open"
       | .err => "closed"
       | .upgraded _ => "open"
-    .list [.atom "obs", .list [.atom "bridged", .list (.atom "out" :: out.map ofReply), bytesAtom raw, .atom ending],
+    -- closeearly: the pump forwards the pending input, then shuts the service connection down in both
+    -- directions; how many replies still get through is a race, what comes is a prefix of the direct replies
+    let bridgedSx : Sx := if early then .list [.atom "bridged", .list [.atom "prefix", .atom "t"], .atom ending]
+      else .list [.atom "bridged", .list (.atom "out" :: out.map ofReply), bytesAtom raw, .atom ending]
+    .list [.atom "obs", bridgedSx,
            .list [.atom "exit", .atom "0"], directSx, .atom "-", .list [.atom "upseen", .atom "-", .atom "-"]]
   else
     let w := c.world
@@ -163,7 +164,7 @@ def proxyObs (c : PCase) : Sx :=
     let bo := Proxy.bridge w (decOf c.dec) (if dropAll || stream.isEmpty then [] else [stream])
     let o : Proxy.Out := { groups := bo.groups, sent := bo.sent, status := bo.status, consumed := 0 }
     let pipelinedPayload := c.client == "pipelined"
-    let pump : Option Proxy.Pumped := match o.status with
+    let pump : Option Proxy.Pumped := match bo.status with
       | .upgraded _ (some i) =>
         if i == upName then
           some (if pipelinedPayload then Proxy.upgradedPump (fun b => b.map upTransform) (payloadBytes c) []
@@ -174,16 +175,14 @@ def proxyObs (c : PCase) : Sx :=
     let upB : Bytes := match pump with | some p => p.toService | none => []
     let ending := match o.status with
       | .eof => if early then "closed" else "open"
-      | .stopped => "closed"
       | .error => "closed"
       | .hang => "timeout"
       | .upgraded _ _ => if early then "closed" else "open"
     let exit := if c.mode == "bridge2" then "0" else match o.status with
       | .eof => "0"
-      | .stopped => "0"
       | .error => "1"
       | .hang => "timeout"
-      | .upgraded _ _ => "sig6"
+      | .upgraded _ _ => "0"
     let bridgedLog := (List.range nsvc).map fun t =>
       (t, o.sent.filterMap fun (a, r) => if a == svcAddr t && isLogged c t r then some r else none)
     .list [.atom "obs",
@@ -195,7 +194,8 @@ def proxyObs (c : PCase) : Sx :=
 def proxyLine (line : String) : String :=
   match parse line with
   | none => "(model-parse-error)"
-  | some (.list [.atom "raceprobe", _]) => "(raceprobe lost)"
+  | some (.list [.atom "raceprobe", _]) => "(raceprobe kept)"     -- fixed by ac1225d
+  | some (.list [.atom "closeprobe", _]) => "(closeprobe cut)"   -- handle_connect shuts the service connection down at once
   | some sx =>
     match parsePCase sx with
     | some c => render (proxyObs c)
@@ -212,6 +212,8 @@ def parsePReps (l : List Sx) : List ProxyPred.PRep :=
 
 def parseBridged : Sx → Option (Option ProxyPred.Bridged)
   | .list [.atom "bridged", .atom "panicked"] => some none
+  | .list [.atom "bridged", .list [.atom "prefix", .atom p], .atom e] =>
+    some (some { out := [], raw := [], ending := e, prefixOnly := some (p == "t") })
   | .list [.atom "bridged", .list (.atom "out" :: rs), raw, .atom e] => do
     let raw ← asBytes raw
     pure (some { out := parsePReps rs, raw, ending := e })
@@ -237,6 +239,8 @@ def proxyPred (prop caseLine obsLine : String) : String :=
   match parse caseLine, parse obsLine with
   | some (.list [.atom "raceprobe", _]), some (.list [.atom "raceprobe", .atom r]) =>
     if r == "kept" then "ok" else "fail reply-before-close-lost"
+  | some (.list [.atom "closeprobe", _]), some (.list [.atom "closeprobe", .atom r]) =>
+    if r == "complete" then "ok" else "fail replies-cut-on-client-close"
   | some cs, some (.list [.atom "obs", b, .list [.atom "exit", .atom ex], .list (.atom "direct" :: ds), log,
                           .list [.atom "upseen", ub, ud]]) =>
     match parsePCase cs, parseBridged b with
